@@ -736,6 +736,11 @@ pub fn gate(flags: &[String], m: &str, ops: &[Opd]) -> bool {
     if has("Tiny1x") && matches!(m, "adiw" | "sbiw" | "ijmp" | "icall" | "ldd" | "std" | "lds" | "sts" | "push" | "pop") {
         return true;
     }
+    // a displacement form is LDD/STD whatever mnemonic it is written with (q = 0 is the same word as
+    // the plain `ld Rd, Z`, which these cores do have: left to the convention)
+    if has("Tiny1x") && matches!(m, "ld" | "st") && ops.iter().any(|o| matches!(o, Opd::Q(_, q) if *q != 0)) {
+        return true;
+    }
     if has("Avr8l") && matches!(m, "adiw" | "sbiw") {
         return true;
     }
